@@ -1,4 +1,5 @@
 """C07 nothing is lost on eviction: leaving memory means being in the archive."""
+from hypothesis import strategies as st
 from harness import cachehist as H, cachegen as G
 from harness.core import Discrepancy
 from props._cc import has, base_classes, same, outcome
@@ -22,7 +23,7 @@ BACKENDS = ('cache_dict', 'cache_file_pkl', 'cache_dir_dill', 'cache_sql_mem', '
 
 
 def strata(tier):
-    return G.strata_grid(
+    return [('unstorable-result', unstorable_cases())] + G.strata_grid(
         algos=('lru', 'mru', 'lfu', 'rr', 'no'), maxsizes=(2, 1, 3, 5), purges=(False, True), backends=BACKENDS, families=('memarch', 'persist'),
         weights={'call': 14, 'burst': 1, 'load': 2, 'dump': 1, 'dumpk': 1, 'loadk': 1, 'clear': 1, 'clearkeep': 0,
                  'arch_off': 1, 'arch_on': 2, 'awrite': 1},
@@ -111,7 +112,77 @@ def check_trace(case, tr):
     return out, ev, flags
 
 
+# ------------------------------------------------------------ results the archive cannot encode
+
+@st.composite
+def unstorable_cases(draw):
+    """a result the attached archive cannot store (tuple for sqlite, generator for the pickling archives): the eviction that should write it fails.
+    'before it is dropped': an entry whose archive write failed must not leave memory"""
+    backend = draw(st.sampled_from(['sql_mem', 'file_pkl', 'dir_dill', 'sql_file']))
+    return {'mode': 'unstorable', 'module': draw(st.sampled_from(['std', 'safe'])), 'algo': draw(st.sampled_from(['lru', 'lfu', 'mru', 'rr'])),
+            'maxsize': draw(st.integers(1, 3)), 'backend': backend, 'poison': draw(st.integers(0, 5)),
+            'calls': draw(st.lists(st.tuples(st.integers(0, 5), st.integers(0, 7)).map(list), min_size=3, max_size=14))}
+
+
+def run_unstorable(case):
+    import random, tempfile, shutil, klepto, klepto.safe
+    from harness import arch as A
+    root = tempfile.mkdtemp(prefix='c07u_', dir=H._tmproot())
+    out = []
+    classes = ['mode:unstorable', 'algo:' + case['algo'], 'module:' + case['module']]
+    try:
+        log = []
+        bad = (1, 2) if case['backend'].startswith('sql') else (i for i in range(2))
+
+        def fn(x):
+            log.append(x)
+            return bad if x == case['poison'] else 'r%d' % x
+        c = A.open_archive(case['backend'], root, 'A', cached=True)
+        mod = klepto.safe if case['module'] == 'safe' else klepto
+        f = getattr(mod, case['algo'] + '_cache')(maxsize=case['maxsize'], cache=c, keymap=klepto.keymaps.stringmap())(fn)
+        computed = {}
+        failed_writes = 0
+        for i, (x, rs) in enumerate(case['calls']):
+            random.seed(rs)
+            n0 = len(log)
+            try:
+                f(x)
+            except Exception as e:
+                failed_writes += 1          # the archive refused the poison entry (std and safe both let that error out)
+            if len(log) > n0:
+                computed[f.key(x)] = bad if x == case['poison'] else 'r%d' % x
+            mem = dict(f.__cache__())
+            try:
+                arch = dict(c.archive.items())
+            except Exception as e:
+                out.append(Discrepancy('C07/unstorable/archive-unreadable/%s' % H.exc_sig(e), repr(e)))
+                break
+            for k, v in computed.items():
+                if k in mem:
+                    if (mem[k] is not v) and mem[k] != v:
+                        out.append(Discrepancy('C07/unstorable/resident-value-differs', 'step %d: %r' % (i, k)))
+                elif k in arch:
+                    if arch[k] != v:
+                        out.append(Discrepancy('C07/unstorable/archived-value-differs', 'step %d: %r' % (i, k)))
+                else:
+                    out.append(Discrepancy('C07/%s/entry-dropped-although-archive-write-failed' % case['algo'],
+                                           'step %d (call %r): result of key %r is neither in memory %r nor in the archive %r' % (i, x, k, sorted(mem), sorted(arch))))
+            if out:
+                break
+        if failed_writes:
+            classes.append('archive_refused_victim')
+        conn = getattr(c.archive, '_conn', None)
+        if conn is not None:
+            conn.close()
+        nt = ('unstorable', case['module'], case['algo'], case['backend'], case['maxsize'], failed_writes > 0, len(case['calls'])) if failed_writes else None
+        return out, nt, classes
+    finally:
+        shutil.rmtree(root, ignore_errors=True)
+
+
 def run_case(case):
+    if case.get('mode') == 'unstorable':
+        return run_unstorable(case)
     tr = H.run_history(case)
     discrs, ev, flags = check_trace(case, tr)
     classes = base_classes(case)
@@ -124,6 +195,6 @@ def run_case(case):
     return discrs, nt, sorted(set(classes))
 
 
-REQUIRED_CLASSES = ['attached_after_decoration', 'evicted_to_archive', 'purged_to_archive', 'victim_was_loaded', 'late_attach',
+REQUIRED_CLASSES = ['archive_refused_victim', 'attached_after_decoration', 'evicted_to_archive', 'purged_to_archive', 'victim_was_loaded', 'late_attach',
                     'eff_algo:lfu', 'eff_algo:mru', 'eff_algo:rr', 'eff_algo:no', 'module:safe']
 TRIGGERS = {}
